@@ -5,7 +5,7 @@ REAL = ("real: engine, core, hnsw, optimizer, mmap arena, persistence, recovery;
 
 PROPS = {
     "C01": {
-        "level": "exploration", "quick": 1500, "thorough": 60000, "batch": 25,
+        "level": "exploration", "quick": 15000, "thorough": 150000, "batch": 25,
         "rule": ("seeded single-task histories (<=40 ops over <=3 indexes x <=12 ids, KV, graph; snapshot/compaction/compress/"
                  "maintenance/clock advances interleaved) executed against the real engine inside a synctest bubble; at every "
                  "generated restart and at the end the full public-API read-out before Close is compared with the read-out after "
@@ -16,7 +16,7 @@ PROPS = {
                         "turbo refine after VImportCommit is allowed to finish (simulated time) before the pre-close read-out"],
     },
     "C04": {
-        "level": "exploration", "quick": 1500, "thorough": 60000, "batch": 25,
+        "level": "exploration", "quick": 10000, "thorough": 100000, "batch": 25,
         "rule": ("seeded single-task histories (add / batch below and above the batch-path threshold / import / delete / re-add / "
                  "metadata merge / reinforce / evolve / KV / link, with vacuum, refine, compress, snapshot, compaction and clock "
                  "advances at any position) executed against the real engine and a map-based reference model; after EVERY operation "
@@ -28,7 +28,7 @@ PROPS = {
                         "operations the documentation leaves undefined are skipped (probe undefined:*), never judged"],
     },
     "C05": {
-        "level": "exploration", "quick": 1500, "thorough": 60000, "batch": 25,
+        "level": "exploration", "quick": 10000, "thorough": 100000, "batch": 25,
         "rule": ("C04 histories in which the generator, knowing the model state, inserts operations that must be rejected (duplicate id "
                  "alone / inside a batch / twice in one batch, unknown index or node, dimension mismatch alone / in a batch, invalid edge "
                  "property key, duplicate index name, unsupported metric x precision, empty index without dimension, unknown or unsupported "
@@ -39,7 +39,7 @@ PROPS = {
         "assumptions": ["reference model decides which operations must be rejected (classes listed in the property statement only)"],
     },
     "C10": {
-        "level": "exploration", "quick": 1500, "thorough": 80000, "batch": 25,
+        "level": "exploration", "quick": 3000, "thorough": 80000, "batch": 25,
         "rule": ("seeded link / relink (changed weight or props) / soft and hard unlink / graph vacuum (explicit and the hourly background "
                  "ticker, retention from config) / delete-cascade / snapshot / compaction / restart histories over <=6 nodes x 3 relations x "
                  "<=2 namespaces with clock advances in {0, 1ns, 2ns, 1us, 1s, 3s, 1m, 61m} so equal timestamps and every boundary occur; after "
@@ -51,7 +51,7 @@ PROPS = {
                         "changed weight/props supersedes; hard unlink erases all versions of the triple; vacuum removes deleted <= cutoff"],
     },
     "C11": {
-        "level": "exploration", "quick": 2000, "thorough": 150000, "batch": 25,
+        "level": "exploration", "quick": 30000, "thorough": 300000, "batch": 25,
         "rule": ("seeded directed multigraphs over 6 nodes x 3 relations (cycles, self-loops, parallel relations, inverse links, soft- and "
                  "hard-deleted versions) built through link/unlink under the simulated clock, optionally followed by snapshot/compaction/"
                  "restart, then 5-30 queries: FindPath (relation subset, depth 0..4, as-of time at recorded instants +-1ns) checked for "
@@ -64,7 +64,7 @@ PROPS = {
                         "a per-process timeout (proc_timeout) is the watchdog for non-terminating traversals"],
     },
     "C08": {
-        "level": "exploration", "quick": 2000, "thorough": 100000, "batch": 25,
+        "level": "exploration", "quick": 15000, "thorough": 150000, "batch": 25,
         "rule": ("seeded metadata histories on one index (add, batch, delete, re-add, merge with type changes string<->number<->bool<->list, "
                  "vacuum, refine) interleaved with snapshot, compaction, compress, restart and with filter queries at any position; each query "
                  "is a generated AST (1-2 OR blocks of 1-2 AND clauses over =, !=, <, <=, >, >=; quoted/unquoted literals, mixed-case keywords, "
@@ -77,7 +77,7 @@ PROPS = {
         "assumptions": ["documented semantics: != matches ids lacking the field; a numeric-looking literal matches the number and the string (lenient union); OR binds weaker than AND"],
     },
     "C09": {
-        "level": "exploration", "quick": 2000, "thorough": 100000, "batch": 25,
+        "level": "exploration", "quick": 15000, "thorough": 150000, "batch": 25,
         "rule": ("seeded corpora of <=12 short English/Italian texts with histories of insert / overwrite of the text field / delete / re-add / "
                  "snapshot / compaction / compress / restart; text queries of 1-3 words: returned documents == live documents sharing >=1 analysed "
                  "term, each score == BM25 (k1=1.2, b=0.75, idf=ln(1+(N-df+.5)/(df+.5))) recomputed from scratch on the current field values "
@@ -87,7 +87,7 @@ PROPS = {
         "assumptions": ["tokeniser/stemmer trusted", "queries are only judged while at least one live document has the text field (documented fallback to vector-only otherwise)"],
     },
     "C02": {
-        "level": "fault_enumeration", "quick": 600, "thorough": 12000, "batch": 10, "min_per_sig": 1,
+        "level": "fault_enumeration", "quick": 5000, "thorough": 50000, "batch": 10, "min_per_sig": 1,
         "rule": ("seeded C01-style histories (<=30 ops) run with the disk hook installed; crash images (sparse copy of the data directory as "
                  "read() sees it = page cache + MAP_SHARED stores, user-space buffers lost) are taken BEFORE file-system events and in the MIDDLE "
                  "of writes (torn at 1, 5, 10, len-1 and random offsets): quick = sampled (p=.04 per event, .5 inside snapshot/compaction/drop/"
@@ -118,7 +118,7 @@ PROPS = {
                         "process address space limited to 6 GB by the driver (RLIMIT_AS); per-process timeout"],
     },
     "C14": {
-        "level": "exploration", "quick": 400, "thorough": 30000, "batch": 1, "single_timeout": 120,
+        "level": "exploration", "quick": 3000, "thorough": 30000, "batch": 1, "single_timeout": 120,
         "rule": ("2-3 writer tasks (each the only writer of its KV keys, vectors and metadata versions; every value carries a monotone version), "
                  "1-2 admin tasks issuing SaveSnapshot / RewriteAOF (overlapping when two admins) / Flush / Sync / forced vacuum, an optional task that "
                  "calls Close at a random point, optional tiny auto-save policy, all run by the cooperative scheduler: every lock operation and every "
@@ -150,7 +150,7 @@ PROPS = {
                         "decision points exist only at rewritten lock operations and file calls"],
     },
     "C12": {
-        "level": "exploration", "quick": 400, "thorough": 30000, "batch": 1, "single_timeout": 150,
+        "level": "exploration", "quick": 6000, "thorough": 60000, "batch": 1, "single_timeout": 150,
         "rule": ("a graph over 5 vector nodes (incoming, outgoing, inverse and self edges) is built and synced; then 1-2 deleter tasks (VDelete of "
                  "1-3 nodes), a linker task creating further edges (also to nodes being deleted), optional snapshot/compaction/flush noise and an "
                  "optional Close at a random point run under the cooperative scheduler: the cascade goroutine of every delete is an internal task "
@@ -164,7 +164,7 @@ PROPS = {
         "assumptions": ["VGetConnections repairs dead links as a side effect (documented), it is called last and the run is settled again afterwards"],
     },
     "C06": {
-        "level": "exploration", "quick": 1500, "thorough": 90000, "batch": 1, "single_timeout": 150,
+        "level": "exploration", "quick": 8000, "thorough": 90000, "batch": 1, "single_timeout": 150,
         "rule": ("two tiers chosen by seed. Single task (2/3): C08-style histories (add, batch, delete, re-add, metadata merge, link/unlink, "
                  "vacuum, refine, compress, snapshot, compaction, restart; float32/float16/int8) with searches at any position: vector queries with "
                  "k in {1..50}, efSearch, generated filter ASTs, graph scopes (root, relations, direction, depth); every returned id must be live in the "
@@ -179,7 +179,7 @@ PROPS = {
         "assumptions": ["scores of memory-enabled (decay) indexes are judged by C15, not here", "exact regime = <=2M nodes ever inserted and efConstruction >= 2M"],
     },
     "C15": {
-        "level": "exploration", "quick": 1500, "thorough": 100000, "batch": 25,
+        "level": "exploration", "quick": 6000, "thorough": 100000, "batch": 25,
         "rule": ("a memory-enabled index (global half-life 10s/60s/600s, model exponential/linear/step/ebbinghaus/default/unknown, optional layers "
                  "with their own half-life, a no-decay layer, pinned-by-default) receives 3-10 memories (with twins) whose _created_at is absent / past / "
                  "exactly one half-life ago / in the future, _pinned as bool or string, per-memory model overrides, layers, preset access counts, "
@@ -193,7 +193,7 @@ PROPS = {
         "assumptions": ["formulas and the reference-time rule are taken from pkg/engine/README.md", "ages are whole simulated seconds (the code reads time.Now().Unix())"],
     },
     "C16": {
-        "level": "exploration", "quick": 400, "thorough": 20000, "batch": 10,
+        "level": "exploration", "quick": 4000, "thorough": 40000, "batch": 10,
         "rule": ("the real server handler chain (recovery, logging, body limit, auth middleware, mux; ServeHTTP with httptest recorders, no sockets) "
                  "over a simulated engine with a root token; indexes alpha/beta/docsearch/x-traverse and KV keys plain/n-search/find-path/get-links hold "
                  "marker data; keys for read/write/admin x namespace lists are issued through POST /auth/keys. 20-60 requests per run are drawn from 29 "
@@ -209,7 +209,7 @@ PROPS = {
                         "route x name x credential product is input enumeration run inside the simulator; the clock (expiry) and restart histories are the simulation-specific part"],
     },
     "C19": {
-        "level": "exploration", "quick": 400, "thorough": 20000, "batch": 10, "vlimit_kb": 8 * 1024 * 1024,
+        "level": "exploration", "quick": 6000, "thorough": 60000, "batch": 10, "vlimit_kb": 8 * 1024 * 1024,
         "rule": ("the real server handler chain over a simulated engine (asynchronous tasks settled by quiescence) receives 20-80 requests per run "
                  "over 36 data-plane routes (KV, vector, index, graph, system stats): a valid body template mutated by one operator (field deleted, "
                  "wrong JSON type, null, empty, huge, negative, 200-1000 levels of nesting, unknown field, wrong dimension, k/batch/dimension over the "
@@ -224,7 +224,7 @@ PROPS = {
                         "body-size limit (512 MB) is not exercised; an unknown field is not required to be rejected (the statement lists non-JSON and wrong types)"],
     },
     "C17": {
-        "level": "exploration", "quick": 1000, "thorough": 60000, "batch": 25,
+        "level": "exploration", "quick": 20000, "thorough": 200000, "batch": 25,
         "rule": ("the real AIProxy.ServeHTTP over a simulated engine with a stub embedder (prompts sit at known angles on the unit circle, so every "
                  "metric distance is known exactly) and a stub upstream RoundTripper that counts requests; configuration per run: deny-pattern subset, "
                  "forbidden-prompt index (cosine or euclidean), firewall threshold, cache threshold, TTL 0/5/60 s, firewall/cache on or off, cache index "
@@ -239,7 +239,7 @@ PROPS = {
         "assumptions": ["thresholds are distances (smaller = more similar), as documented in proxy.yaml / config_loader.go", "asynchronous cache saves are settled by quiescence before the next request"],
     },
     "C18": {
-        "level": "exploration", "quick": 600, "thorough": 40000, "batch": 10,
+        "level": "exploration", "quick": 5000, "thorough": 50000, "batch": 10,
         "rule": ("STORAGE HALF (simulation): the real mmap.VectorArena + AsyncCompactor driven directly with 8 MB slots (7 per 64 MB chunk, ids 1-30 span "
                  "5 chunks; only the first/last 16 bytes of a slot are touched so chunk files stay sparse). Three tasks under the cooperative lock scheduler: "
                  "a mutator (alloc+write / free / verify / GetState+Close+reopen+LoadState), a reader (through GetBytes and through the node pointer handed "
@@ -255,7 +255,7 @@ PROPS = {
         "assumptions": ["callers do not mutate the arena concurrently with a compaction cycle (property text: sequences of operations, with readers concurrent)", "a slice returned by GetBytes is judged only while no relocation or mutation intervened (it aliases the mapping by design)"],
     },
     "C07": {
-        "level": "exploration", "quick": 300, "thorough": 40000, "batch": 5,
+        "level": "exploration", "quick": 600, "thorough": 40000, "batch": 5,
         "rule": ("one index per run over a procedurally generated data set (independent Gaussian, clustered, with duplicates, with zero-vector hubs, integer lattice; "
                  "dim 2-256; euclidean/cosine; float32, float16, int8) with M in {4..32} and efConstruction in {default, 2M, 100, 200}. History = seeded mix of single "
                  "adds, batches, fast imports (+commit = turbo refine), deletes, vacuum, refine, compress, snapshot, rewrite and restart, with evaluations in between. "
